@@ -71,6 +71,9 @@ def _reads_field(handler, field):
     return False
 
 
+_LIST_FIELDS = ("ops", "comparators", "values", "elts", "keys", "args", "keywords", "generators", "ifs", "dims")
+
+
 @rule("C19.regen-exhaustive", min_instances=30, props=["C02"])
 def regen_exhaustive(ctx):
     """the expression re-emitter (defaults of def/block/page arguments, filter-call arguments) handles every expression class, operator and arguments field of the running interpreter's grammar, including the None cases"""
@@ -100,6 +103,18 @@ def regen_exhaustive(ctx):
         if c in ("Tuple", "List", "Set") and isinstance(h, ast.Assign):
             missing = []
         ctx.check(not missing, "fields:" + c, db.where(h), "visit_%s never reads node.%s: that part of the expression is dropped on re-emission" % (c, ", node.".join(missing)), "reads all child fields")
+        # a list-valued field read only through a constant index: the other elements are never re-emitted
+        if not isinstance(h, ast.Assign):
+            for f in getattr(ast, c)._fields:
+                if f not in _LIST_FIELDS:
+                    continue
+                reads = [n for n in ast.walk(h) if isinstance(n, ast.Attribute) and n.attr == f and isinstance(n.value, ast.Name) and n.value.id == "node"]
+                if not reads:
+                    continue
+                only_indexed = all(isinstance(getattr(n, "_parent", None), ast.Subscript) and n._parent.value is n and isinstance(const(n._parent.slice), int) for n in reads)
+                ctx.check(not only_indexed, "whole-list:%s.%s" % (c, f), db.where(h),
+                          "visit_%s reads node.%s only at a fixed index: a %s with several %s is re-emitted with the first one repeated / the others dropped (e.g. `lo <= v < hi` becomes `lo <= v <= hi`)" % (c, f, c, f),
+                          "node.%s is consumed as a whole" % f)
     # operator tables
     for table, base in (("BINOP_SYMBOLS", ast.operator), ("UNARYOP_SYMBOLS", ast.unaryop), ("CMPOP_SYMBOLS", ast.cmpop), ("BOOLOP_SYMBOLS", ast.boolop)):
         have = _symbols(db, table)
@@ -149,7 +164,7 @@ def _handler_guards_table(meths, table):
     return False
 
 
-@rule("C19.regen-precedence", min_instances=2)
+@rule("C19.regen-precedence", min_instances=2, props=["C02"])
 def regen_precedence(ctx):
     """conditional expressions and lambdas (which bind looser than every operator) are re-emitted with their own parentheses, or only under parents that parenthesise their operands"""
     db = ctx.db
